@@ -21,9 +21,10 @@
    such conditions: witness in findings.d/C03.json, now a regression case; C03_when_forall_example below).
    C03_order_independent_model speaks about the model alone (consistency of the groups the model fires). *)
 From Coq Require Import List String Bool PrimFloat Permutation.
+From Verif Require Import Base.Sexp Spec.Grammar Spec.Faithful Proofs.C01_Defs.   (* before C03_Defs: its names win *)
 From Verif Require Import Base.Result Base.Str Base.PyDict Model.Types Model.Domain Model.Exec Spec.Pddl
   Proofs.C03_Spec Proofs.C03_Defs Proofs.C03_Refine Proofs.C03_Main Proofs.C03_Inner Proofs.C03_Examples
-  Corr.Core Proofs.C03_Judge Proofs.C03_Closed.
+  Corr.Core Proofs.C03_Judge Proofs.C03_Closed Proofs.C03_Parsed.
 Import ListNotations.
 
 (* C03_successor.  For EVERY visiting order of the effect groups and of the universal effects the model returns a
@@ -248,7 +249,53 @@ Theorem C03_example :
              state_eq s' (successor ex_eps (d_types ex_dom) ex_objs (spec_action ex_act ex_effs) ex_args ex_state).
 Proof. exact C03_example_lemma. Qed.
 
+(* ---------- parsed domains: the denotation hypothesis discharged, the successor of the INDEPENDENT reading ----------
+   For a domain text e that the model's parser accepts (parse_domain num e = Ok m) and that the independent grammar
+   (Spec.Grammar.read_domain) reads as sd, every action ma of the object model has a counterpart sa in sd, and if sa is
+   free of the two stored-but-unusable forms of C01 (action_ok: '(= 1 2)' between numerals, a numeric effect on a
+   reserved word), then ma denotes an effect list (C03_Defs.denote_effs - the hypothesis of C03_successor) that is "the
+   same effects" as sa's (Spec.Faithful.effs_rel: order of the groups, order inside a group, equivalent conditions).
+   sections_once / C01_Defs.names_ok are C01's side conditions on the text (each section once; declared names are not
+   reserved words). *)
+Theorem C03_parsed_denotes : forall num e m sd n ma,
+  parse_domain num e = Ok m -> read_domain num e = Some sd -> sections_once e -> C01_Defs.names_ok sd ->
+  dget (d_actions m) n = Some ma ->
+  exists sa, In sa (sd_actions sd) /\ n = lower_string (a_name sa) /\
+             (action_ok sa = true ->
+              ma_sig ma = dict_of (a_params sa) /\
+              exists effs, C03_Defs.denote_effs ma = Some effs /\ effs_rel effs (a_effs sa)).
+Proof. exact parsed_denotes. Qed.
+
+(* "the same effects" have the same successor (and consistency transfers) *)
+Theorem C03_same_effects_same_successor : forall eps tt objs A A' args s,
+  map fst (a_params A) = map fst (a_params A') -> effs_rel (a_effs A) (a_effs A') ->
+  consistent (all_groups eps tt objs A' args s) = true ->
+  state_eq (successor eps tt objs A args s) (successor eps tt objs A' args s) /\
+  consistent (all_groups eps tt objs A args s) = true.
+Proof. exact successor_effs_rel. Qed.
+
+(* C03_successor for parsed domains: no hypothesis about the object model's effect representation; consistency and the
+   successor are those of the action sa as the independent grammar reads it from the text. *)
+Theorem C03_successor_parsed : forall num e (m : mdomain) sd n (ma : maction),
+  parse_domain num e = Ok m -> read_domain num e = Some sd -> sections_once e -> C01_Defs.names_ok sd ->
+  dget (d_actions m) n = Some ma ->
+  exists sa, In sa (sd_actions sd) /\ n = lower_string (a_name sa) /\
+    (action_ok sa = true -> NoDup (map fst (a_params sa)) ->
+     forall (eps : float) (args : list string) (ga : gaction) (objs : objects) (s : state),
+       C03_Defs.names_ok m ma = true ->
+       ground_action m ma args = Ok ga ->
+       is_applicable m eps (Some objs) ga s = Ok true ->
+       evaluates m eps objs ga s ->
+       consistent (all_groups eps (d_types m) objs sa args s) = true ->
+       forall order uorder, is_order order (List.length (ga_groups ga)) -> is_order uorder (List.length (ma_univ ma)) ->
+       exists s', apply_op m eps ga (Some objs) false false order uorder s = Ok s' /\
+                  state_eq s' (successor eps (d_types m) objs sa args s)).
+Proof. exact successor_parsed. Qed.
+
 Print Assumptions C03_successor.
+Print Assumptions C03_parsed_denotes.
+Print Assumptions C03_same_effects_same_successor.
+Print Assumptions C03_successor_parsed.
 Print Assumptions C03_successor_judged.
 Print Assumptions C03_returned_is_successor.
 Print Assumptions C03_order_independent.
